@@ -44,18 +44,19 @@ const (
 )
 
 var routerName = map[uint64]string{rVote: "vote", rETH: "eth", rBSC: "bsc", rHECO: "heco", rPIXIE: "pixie", rHSC: "hsc",
-	rBYTOM: "bytom", rRIPPLE: "ripple-vote"}
+	rBYTOM: "bytom", rRIPPLE: "ripple-vote", rQUORUM: "quorum"}
 
 // routers for which this package has no honest proof builder: never used as an import source
-var routersNotExercised = []string{"btc", "ont", "neo", "neo3", "cosmos", "okex", "quorum", "zilliqa", "zilliqalegacy", "msc",
+var routersNotExercised = []string{"btc", "ont", "neo", "neo3", "cosmos", "okex", "zilliqa", "zilliqalegacy", "msc",
 	"polygon-bor", "starcoin", "harmony(stubbed: cgo)"}
 
 // account-based routers used only as destination of messages (the destination's router id must not matter)
-var destOnlyRouters = []uint64{3, 4, 5, 8, 9, 10, 12, 14, 16, 17, 18, 21}
+var destOnlyRouters = []uint64{3, 4, 5, 9, 10, 12, 14, 16, 17, 18, 21}
 
 func isVoteFamily(r uint64) bool { return r == rVote || r == rRIPPLE }
 func isEVM(r uint64) bool {
-	return r == rETH || r == rBSC || r == rHECO || r == rPIXIE || r == rHSC || r == rBYTOM
+	// go-ethereum-trie routers with a builder here; quorum (Istanbul) carries its header with the import
+	return r == rETH || r == rBSC || r == rHECO || r == rPIXIE || r == rHSC || r == rBYTOM || r == rQUORUM
 }
 func isGated(r uint64) bool      { return r == rHSC || r == rBYTOM }
 func sourceCapable(r uint64) bool { return isVoteFamily(r) || isEVM(r) }
@@ -1004,7 +1005,20 @@ func (e *engine) opEVM(s, mi, hsel, variant int) {
 			height, hclass = evmGenesisHeight-1, "evm:height-below-root"
 		}
 	}
+	qv := 0
+	if ch.Router == rQUORUM { // no tracked heights: the sealed header travels with the import
+		height, hclass = evmGenesisHeight, ""
+		switch mod(hsel, 8) {
+		case 6:
+			qv, hclass = 1, "quorum:header-sealed-by-outsider"
+		case 7:
+			qv, hclass = 2, "quorum:header-below-validator-epoch"
+		}
+	}
 	t := &importTx{src: ch.ID, height: height, extra: extra, signers: []common.Address{outsider(2)}}
+	if ch.Router == rQUORUM && e.genesis[s] {
+		t.header = e.chainOf(s).quorumHeader(qv)
+	}
 	if ok, why := e.sourceGate(ch.ID); !ok {
 		t.proof = []byte("{}")
 		if isEVM(ch.Router) && e.genesis[s] {
